@@ -1296,7 +1296,7 @@ def check_savepoint(ctx, fname, seed, ops, mechs=MECHS, driver=None, stale=True,
         desc = f"{fname}|{','.join(ops)}|{mech}"
         obs_r, err_r = observe(r)
         bitwise = 0
-        bad = []
+        bad, remaining = [], []
         if err_r is not None:
             cls = _blame_class(r.top, None, err_r[2])
             fail(f"{mech}:{cls}:restored-unusable:{err_r[0]}", f"{short} restored by {mech} after {list(ops)}: "
@@ -1351,7 +1351,7 @@ def check_savepoint(ctx, fname, seed, ops, mechs=MECHS, driver=None, stale=True,
                 fail(f"not-independent:{_short_cls(r.top, shared[0])}:{mech}",
                      f"{mech} of {short}: the copy shares {shared[:3]} with the original", mechanism=mech, shared=shared[:6])
         # attribute diff
-        _diff_attrs(fail, ctx, fname, ops, mech, snap_o, snaps[mech], t0)
+        _diff_attrs(fail, ctx, fname, ops, mech, snap_o, snaps[mech], t0, pred_ok=(err_r is None and not remaining))
         ctx.case(desc, nontrivial=nontriv, sample={"family": fname, "ops": list(ops), "mechanism": mech,
                                                     "observables": len(obs_o), "bitwise_equal": bitwise})
     if stale_pred is not None and not any(k.startswith(("mismatch:", "not-persisted:", "state_dict:")) for k in fails):
@@ -1414,7 +1414,7 @@ def _blame_class(top, exc, tb_text=None):
     return type(top).__name__
 
 
-def _diff_attrs(fail, ctx, fname, ops, mech, snap_o, snap_r, t0):
+def _diff_attrs(fail, ctx, fname, ops, mech, snap_o, snap_r, t0, pred_ok=True):
     allow = _allow_list()
     for p, (m, d) in snap_o.items():
         if type(m).__module__.startswith("torch."):
@@ -1437,7 +1437,9 @@ def _diff_attrs(fail, ctx, fname, ops, mech, snap_o, snap_r, t0):
                     if (c.__name__, a) in DYNAMIC_ALLOW:
                         tag = ("dynamic", "none")
                         break
-            if tag is not None and (tag[0] in ("cache", "scratch", "dynamic") or
+            if tag is not None and tag[0] in ("cache", "cacheTag") and not pred_ok:
+                tag = None      # a pure cache is only accepted when the restored model predicts identically
+            if tag is not None and (tag[0] in ("cache", "cacheTag", "scratch", "dynamic") or
                                     (mech == "state_dict" and tag[0] in ("derived", "cursor", "config", "data"))):
                 ctx.count(f"not-carried-allowed:{tag[0]}")
                 _state.setdefault("allowed_seen", {}).setdefault(f"{owner}.{a}", set()).add(mech)
@@ -1450,7 +1452,7 @@ def _diff_attrs(fail, ctx, fname, ops, mech, snap_o, snap_r, t0):
             if a not in d and mech != "state_dict":
                 owner = _owner_of_attr(mr, a)
                 tag = allow.get((owner, a))
-                if tag is not None and tag[0] in ("cache", "scratch"):
+                if tag is not None and tag[0] in ("cache", "cacheTag", "scratch"):
                     continue
                 fail(f"not-carried:{owner}.{a}:{mech}", f"{fname}: {p}.{a} appears only in the {mech} copy", mechanism=mech)
 
